@@ -1,6 +1,7 @@
 #!/bin/bash
 # usage: with_patch.sh [-R] <patch.diff> <command...>
 # Runs the command against a scratch copy of /repo with the patch applied (VERIF_REPO points at the copy);
+# evidence and replay files go to a scratch directory that is removed as well;
 # /repo itself is never touched, so background runs are not disturbed. The copy is removed afterwards.
 REV=""
 if [ "$1" = "-R" ]; then REV="-R"; shift; fi
@@ -9,6 +10,7 @@ COPY=$(mktemp -d /tmp/mutrepo-XXXXXX)
 cp -r /repo/. "$COPY"/
 git -C "$COPY" apply $REV "$PATCH" || { echo "patch does not apply"; rm -rf "$COPY"; exit 3; }
 git -C "$COPY" -c user.email=x@x -c user.name=x commit -qam mutant >/dev/null 2>&1
-VERIF_REPO="$COPY" "$@"; rc=$?
-rm -rf "$COPY"
+OUT=$(mktemp -d /tmp/mutout-XXXXXX)
+VERIF_REPO="$COPY" VERIF_EVIDENCE_DIR="$OUT/evidence" VERIF_REPLAY_DIR="$OUT/replays" "$@"; rc=$?
+rm -rf "$COPY" "$OUT"
 exit $rc
